@@ -461,6 +461,10 @@ func runC20(c *gen.Ctx) error {
 		jobs = append(jobs, c20CompIn{Enc: int32(r.Range(0, 6)), Msgs: msgs, Split: r.Bool()})
 	}
 	c.DoParallel("comp", jobs, 8)
+
+	// (e)-(g) the raw-payload encoders, (h)-(i) the wire tracer's end-stream path (c20raw.go)
+	c20RawGen(c)
+	c20TresGen(c)
 	return nil
 }
 
@@ -792,8 +796,9 @@ func runC20Facts(c *gen.Ctx) error {
 		return fmt.Errorf("client.go: switch req.Compression not found")
 	}
 	sort.Strings(items)
+	c20RawFacts(&sb)
 	fmt.Fprintf(&sb, "/-- referenceclient/client.go, switch req.Compression: enum value ↦ (WithAcceptCompression registrations, send-compression names) -/\ndef clientRegs : List (Nat × List (String × String × String) × List String) := [%s]\n\n", strings.Join(items, ", "))
-	sb.WriteString("def tables : Tables :=\n  { nameConsts := nameConsts, compressorOf := compressorOf, decompressorOf := decompressorOf, checkOf := checkOf,\n    tracerOf := tracerOf, serverRegs := serverRegs, clientRegs := clientRegs }\n\n")
+	sb.WriteString("def tables : Tables :=\n  { nameConsts := nameConsts, compressorOf := compressorOf, decompressorOf := decompressorOf, checkOf := checkOf,\n    tracerOf := tracerOf, serverRegs := serverRegs, clientRegs := clientRegs,\n    rawEncoderOf := rawEncoderOf, rawEmptyOf := rawEmptyOf }\n\n")
 	sb.WriteString("end ConfModel.Generated.C20Facts\n")
 	out := ""
 	for i, a := range os.Args {
